@@ -54,10 +54,24 @@ CHECKS = {
              "family and symptom.",
         design_ref="DESIGN.md section 3, C09",
     ),
+    "C10": dict(
+        engine="sessim",
+        category="exploration",
+        technique="deterministic simulation of session histories that stop at depth (runtime error or injected interrupt at "
+                  "step k), abort, then probe; refinement against a fresh-session reference model",
+        text="Seeded cases: completed toplevel work P, 1..3 nested stops (error sites in functions / blocks, or an "
+             "interrupt at step k of a generated program; for a share of cases every k), expressions evaluated in the "
+             "stopped context, optional idle interrupt, :abort once or twice, then probes. Every probe response "
+             "(value/message, position, frame name, output) must equal that of a fresh simulated session given P only; "
+             ":fvalues may show fewer values than the fresh session but never other ones.",
+        note="Stops are generated so that they do not define or assign toplevel variables (a bare toplevel block does not "
+             "open a scope in Garden, so such lets are toplevel variables and the property text is ambiguous about them).",
+        design_ref="DESIGN.md section 3, C10",
+    ),
 }
 
 PENDING = {p: "claimed in DESIGN.md; its check is not built yet, so nothing is claimed for it in this manifest"
-           for p in ["C10", "C11", "C24", "C25", "C26", "C28", "C30", "C31"]}
+           for p in ["C11", "C24", "C25", "C26", "C28", "C30", "C31"]}
 
 NOT_APPLICABLE = {
     "C01": "lex/parse/check never crash: a pure function of one source string; no schedule, clock, fault or history to simulate (fuzzing territory)",
